@@ -187,13 +187,21 @@ class PKESessionKeyV3(PKESessionKey):
         self.encrypter = bytearray(8)
         self.pkalg = 0
         self.ct = None
+        self._opaque_ct = None
 
     def __bytearray__(self):
         _bytes = bytearray()
         _bytes += super(PKESessionKeyV3, self).__bytearray__()
         _bytes += binascii.unhexlify(self.encrypter.encode())
         _bytes += bytearray([self.pkalg])
-        _bytes += self.ct.__bytearray__() if self.ct is not None else b'\x00' * (self.header.length - 10)
+        if self.ct is not None:
+            _bytes += self.ct.__bytearray__()
+
+        elif self._opaque_ct is not None:
+            _bytes += self._opaque_ct
+
+        else:
+            _bytes += b'\x00' * (self.header.length - 10)
         return _bytes
 
     def __copy__(self):
@@ -281,7 +289,9 @@ class PKESessionKeyV3(PKESessionKey):
             self.ct.parse(packet)
 
         else:  # pragma: no cover
-            # version (1) + key id (8) + algorithm (1) octets of the body have been consumed
+            # version (1) + key id (8) + algorithm (1) octets of the body have been consumed;
+            # keep what we cannot interpret so that it is written back as it came
+            self._opaque_ct = packet[:(self.header.length - 10)]
             del packet[:(self.header.length - 10)]
 
 
